@@ -13,10 +13,10 @@ from tools import vlib, units, gotoexec as G, e3lib as E
 import c14_exact as X14
 PROG = None
 
-def setup(it, nd, with_periods=True):
+def setup(it, nd, with_periods=True, variant="distinct"):
     orders = [d % 3 + (1 if d == 2 else 0) for d in range(nd)]; orders = [(d * 2 + 1) % 4 for d in range(nd)]
     naxes = [2 + d + (d % 2) for d in range(nd)]                     # pairwise different for nd <= 5: 2,4,4?? -> fix below
-    naxes = [2, 3, 5, 4, 6][:nd]
+    naxes = [2, 3, 5, 4, 6][:nd] if variant != "equal" else [3] * nd
     nks = [naxes[d] + orders[d] + 1 for d in range(nd)]
     strides = [1] * nd
     for d in range(nd - 2, -1, -1): strides[d] = strides[d + 1] * naxes[d + 1]
@@ -31,7 +31,8 @@ def setup(it, nd, with_periods=True):
     st["na_o"] = it.array("naxes", list(naxes)); it.set_global("naxes", G.Ptr(st["na_o"], 0))
     st["st_o"] = it.array("strides", list(strides)); it.set_global("strides", G.Ptr(st["st_o"], 0))
     st["kn_o"] = it.array("knotptrs", [G.Ptr(kobjs[d], orders[d]) for d in range(nd)]); it.set_global("knots", G.Ptr(st["kn_o"], 0))
-    st["ex_o"] = it.array("extents", [G.Ptr(ext, 2 * d) for d in range(nd)]); it.set_global("extents", G.Ptr(st["ex_o"], 0))
+    st["ex_o"] = it.array("extents", [G.Ptr(ext, 2 * d) for d in range(nd)]) if variant != "noext" else None
+    it.set_global("extents", G.Ptr(st["ex_o"], 0) if st["ex_o"] is not None else G.NULL)
     st["co_o"] = it.array("coefficients", [it.fsym("c%d" % i, i) for i in range(n)]); it.set_global("coefficients", G.Ptr(st["co_o"], 0))
     it.set_global("vp_thrown", 0)
     st["pe_o"] = it.array("periods", [F(7 + 10 * d) for d in range(nd)]) if with_periods else None
@@ -50,20 +51,24 @@ def hooks(it):
             out.obj.cells[out.off + k] = acc; k += 1
     def h_rev(it_, a):
         f, l = a; seg = f.obj.cells[f.off:l.off]; f.obj.cells[f.off:l.off] = list(reversed(seg))
-    it.hooks.update(vp_partial_product_reverse=h_pp, vp_reverse_u64=h_rev)
+    def h_eq(it_, a):
+        f, l, o = a; n = l.off - f.off
+        return f.obj.cells[f.off:l.off] == o.obj.cells[o.off:o.off + n]
+    it.hooks.update(vp_partial_product_reverse=h_pp, vp_reverse_u64=h_rev, vp_equal_u64=h_eq)
     return log
 
 def snapshot(it, st):
     return (it.globals["ndim"].cells[0], list(st["order_o"].cells), list(st["nk_o"].cells), list(st["na_o"].cells), list(st["st_o"].cells),
-            [(p.obj.name, p.off) for p in st["kn_o"].cells], [c.num for c in st["ext"].cells], [c.sym for c in st["co_o"].cells],
+            [(p.obj.name, p.off) for p in st["kn_o"].cells], [c.num for c in st["ext"].cells] if st["ex_o"] is not None else None, [c.sym for c in st["co_o"].cells],
             [c.num for c in st["pe_o"].cells] if st["pe_o"] else None)
 
 def perm_case(args):
-    nd, perm, wp = args; t0 = time.time(); tag = "ndim=%d permutation=%s%s" % (nd, list(perm), "" if wp else " (table without periods)")
+    nd, perm, wp = args[:3]; variant = args[3] if len(args) > 3 else "distinct"; t0 = time.time()
+    tag = "ndim=%d permutation=%s%s%s" % (nd, list(perm), "" if wp else " (table without periods)", {"distinct": "", "equal": " (all axes with the same coefficient count)", "noext": " (table without extents, as built by the stacking constructor)"}[variant])
     try:
         prog, params = PROG
         dom = G.TermDom(); it = G.Interp(prog, dom); it.prog_params = params; hooks(it)
-        st = setup(it, nd, wp); before = snapshot(it, st)
+        st = setup(it, nd, wp, variant); before = snapshot(it, st)
         it.call("permuteDimensions", [G.Ptr(it.array("perm", list(perm)), 0), len(perm)])
         bad = []
         if it.globals["vp_thrown"].cells[0]: bad.append("a valid permutation was rejected")
@@ -78,8 +83,9 @@ def perm_case(args):
         kp = st["kn_o"].cells
         for i, j in enumerate(perm):
             if not (kp[i].obj is st["kobjs"][j] and kp[i].off == o[j]): bad.append("knot vector of new dimension %d is not that of old dimension %d" % (i, j))
-            e = st["ex_o"].cells[i]
-            if [e.obj.cells[e.off].num, e.obj.cells[e.off + 1].num] != [Fr(1000 * j), Fr(1000 * j + 1)]: bad.append("extents of new dimension %d are not those of old dimension %d" % (i, j))
+            if st["ex_o"] is not None:
+                e = st["ex_o"].cells[i]
+                if [e.obj.cells[e.off].num, e.obj.cells[e.off + 1].num] != [Fr(1000 * j), Fr(1000 * j + 1)]: bad.append("extents of new dimension %d are not those of old dimension %d" % (i, j))
         co = st["co_o"].cells
         if not bad:
             for idx in itertools.product(*[range(a) for a in na]):
@@ -125,7 +131,8 @@ def main():
     PROG = (prog, {"permuteDimensions": E.param_names(e.header, "permuteDimensions")})
     rep.functions.append(e.info())
     NMAX = 4 if not thorough else 5
-    ptasks = [(nd, p, True) for nd in range(1, NMAX + 1) for p in itertools.permutations(range(nd))] + [(nd, p, False) for nd in (2, 3) for p in itertools.permutations(range(nd))]
+    ptasks = [(nd, p, True) for nd in range(1, NMAX + 1) for p in itertools.permutations(range(nd))] + [(nd, p, False) for nd in (2, 3) for p in itertools.permutations(range(nd))] \
+             + [(nd, p, True, "equal") for nd in (2, 3) for p in itertools.permutations(range(nd))] + [(nd, p, False, "noext") for nd in (2, 3) for p in itertools.permutations(range(nd))]
     rtasks = []
     for nd in (1, 2, 3):
         rtasks += [(nd, "too short", tuple(range(nd - 1))), (nd, "too long", tuple(range(nd + 1))), (nd, "index out of range", tuple(list(range(nd - 1)) + [nd])),
@@ -144,7 +151,7 @@ def main():
         rep.samples += [o[0] for o in flat[:2]]
     rep.extra["exhaustive"] = True
     rep.extra["evaluations"] = len(ptasks) + len(rtasks)
-    rep.extra["distinct_nontrivial"] = len([1 for (nd, p, wp) in ptasks if list(p) != list(range(nd))]) + len(rtasks)
+    rep.extra["distinct_nontrivial"] = len([1 for t_ in ptasks if list(t_[1]) != list(range(t_[0]))]) + len(rtasks)
     rep.extra["rule"] = "every permutation of 1..%d dimensions (with and without a periods array) and every kind of malformed index vector; non-trivial = not the identity permutation; all cases distinct" % NMAX
     rep.assume("BOUNDED: exhaustive over all permutations of 1..%d dimensions of one table shape per dimension count (pairwise different per-dimension attributes); not a proof for all ndim" % NMAX,
                "'evaluating at the permuted point gives the same value' follows from coefficient relocation + per-dimension attribute relocation + C01 (value = sum of coefficient x product of per-dimension bases); it is not re-evaluated numerically here",
